@@ -291,11 +291,15 @@ void error_handler (const char *err) {
     }
   else
     {
+      /* keep the error state for the receiving context (see the caught case above): safe_apply() looks at it */
+      int limit_state = get_error_state (ES_STACK_FULL | ES_MAX_EVAL_COST);
+
       in_mudlib_error_handler = 1;
       in_error = 0;
       mudlib_error_handler (err, 0);
       in_error = 1;
       in_mudlib_error_handler = 0;
+      set_error_state (limit_state);
     }
 
   if (current_heart_beat)
